@@ -174,6 +174,17 @@ def trace(lib, body, env=None, start=0, stop=(), model=None, skip_first_stmts=Fa
             tr.events.append(("write", c, text, site))
             del pending[:]
             return (True, OK(UNIT))
+        cal = c.callee or ""
+        if cal in ("std::fmt::Write::write_str", "std::fmt::Write::write_char"):
+            v = pe._deref_all(envv, av[1]) if len(av) > 1 else None
+            text = None
+            if cal.endswith("write_str") and v is not None and v[0] == "s":
+                text = v[1]
+            elif cal.endswith("write_char") and v is not None and v[0] == "i" and valid_scalar(v[1]):
+                text = chr(v[1])
+            tr.events.append(("write", c, text, {"pieces": [{"lit": text}] if text is not None else [{"ph": "Display"}],
+                                                 "nargs": 0}))
+            return (True, OK(UNIT))
         tr.events.append(("call", c, av))
         return None
 
